@@ -392,6 +392,13 @@ STREAM_ASSUME = [
     "harness process runs with TZ=UTC; FLOAT/DOUBLE texts are compared by strconv.ParseFloat parse-back bits",
 ]
 
+MC_CELLSPEC = dict(module="Test_CellCodec", cfg="Test_CellCodec.cfg", workers=1)
+CODEC_ASSUME = [
+    "expected texts are computed by TLC from spec/CellCodec.tla, transcribed from the MySQL documentation (DESIGN.md Appendix A) and unit-tested "
+    "against server-captured vectors (spec/Test_CellCodec.tla)",
+    "the library's metadata for a column is obtained through the real TableMap() decoder from wire metadata bytes",
+    "FLOAT/DOUBLE: text must be plain decimal (checked in TLA+) and parse back (strconv.ParseFloat, logged by the harness) to the stored bits",
+]
 MC_SESSION = dict(module="MC_Session", cfg={"quick": "MC_Session.quick.cfg", "thorough": "MC_Session.thorough.cfg"}, workers=12)
 MC_CONN = dict(module="MC_Conn", cfg={"quick": "MC_Conn.quick.cfg", "thorough": "MC_Conn.thorough.cfg"}, workers=8)
 MC_CONN_SPEC = dict(module="MC_Conn", cfg="MC_Conn.spec.cfg", workers=8)
@@ -430,6 +437,35 @@ REGISTRY = {
                 nontrivial=has_tx, assumptions=STREAM_ASSUME, trace_heap="6g",
                 rule="scenario = history with event sizes around the driver's 4096-byte buffer x pacing (later packets before/after the handler "
                      "returns) x handler overwriting every delivered byte slice with a per-transaction pattern; every delivery re-read at the end"),
+    "C10": dict(parts=[dict(mode="c10", trace_module="Trace_Codec", trace_cfg="Trace_Codec.cfg", props=["C10"], block_ev=["case"]),
+                       dict(mode="c10s", trace_module="Trace_Stream", trace_cfg="Trace_Stream.cfg", props=["C10"])],
+                mc=[MC_CELLSPEC], assumptions=CODEC_ASSUME,
+                rule="case = (column type, wire metadata, signedness, raw cell bytes) decoded by the real CellBytes with the metadata obtained from "
+                     "the real TableMap() of a table-map event announcing the column; 8- and 16-bit domains exhaustive in both signedness modes "
+                     "(batch lines), 24-bit exhaustive in the thorough tier (sampled chunks in quick), 32/64-bit at every power of two +-1 and "
+                     "random, floats over zeros/subnormals/extremes/random, all YEAR bytes, BIT(1..64), ENUM 1-2, SET 1..8; plus the same kinds "
+                     "end to end through Stream(); distinct by content"),
+    "C11": dict(parts=[dict(mode="c11", trace_module="Trace_Codec", trace_cfg="Trace_Codec.cfg", props=["C11"], block_ev=["case"]),
+                       dict(mode="c11s", trace_module="Trace_Stream", trace_cfg="Trace_Stream.cfg", props=["C11"])],
+                mc=[MC_CELLSPEC], assumptions=CODEC_ASSUME,
+                rule="case = DECIMAL(p,s) for ALL 1520 valid (p,s) x digit classes {all zeros, single low digit, all nines, each 9-digit group "
+                     "zero/non-zero, small integer part, random} x sign, encoded by the harness's decimal2bin transcription; distinct by content"),
+    "C12": dict(parts=[dict(mode="c12", trace_module="Trace_Codec", trace_cfg="Trace_Codec.cfg", props=["C12"], block_ev=["case"],
+                            zones=["UTC", "Asia/Kolkata", "America/New_York", "Australia/Lord_Howe"]),
+                       dict(mode="c12s", trace_module="Trace_Stream", trace_cfg="Trace_Stream.cfg", props=["C12"])],
+                mc=[MC_CELLSPEC], assumptions=CODEC_ASSUME + [
+                    "for TIMESTAMP the UTC offset in force at the instant is logged by the harness from Go's time package (the tz database is data); "
+                    "it is pinned by a monitor for the fixed-offset zones UTC and Asia/Kolkata"],
+                rule="case = temporal cell: the whole 3-byte domains of old DATE and TIME as batch lines (exhaustive in thorough, sampled chunks in "
+                     "quick; the monitor judges raw values that denote valid values), DATETIME/TIMESTAMP and the fractional encodings with fsp 0..6 "
+                     "at boundary and random instants, both signs of TIME/TIME2 up to 838:59:59, zero dates and the zero timestamp; the harness "
+                     "process is run once per zone"),
+    "C13": dict(parts=[dict(mode="c13", trace_module="Trace_Codec", trace_cfg="Trace_Codec.cfg", props=["C13"], block_ev=["case"]),
+                       dict(mode="c13s", trace_module="Trace_Stream", trace_cfg="Trace_Stream.cfg", props=["C13"])],
+                mc=[MC_CELLSPEC], assumptions=CODEC_ASSUME,
+                rule="case = CHAR/BINARY (max 0..1023 bytes), VARCHAR (0..65535), BLOB/GEOMETRY (1..4 length bytes) x actual lengths "
+                     "{0,1,255,256,max,random} x byte content classes; plus tables of 1..4 such columns end to end with cells "
+                     "absent / NULL / empty / value in every column position"),
     "C03": dict(mode="c03", mc=[MC_STREAMER], trace_module="Trace_Stream", trace_cfg="Trace_Stream.cfg", props=["C03"],
                 nontrivial=has_tx, assumptions=STREAM_ASSUME,
                 rule="scenario = generated history (up to 4 files, per-file offset bases up to 2^32) streamed once in full and then once "
